@@ -224,6 +224,12 @@ def renameView (c : Ctx) (s : State) (vid : Nat) (nq : QName) : State × Res :=
               | Option.none => ({ s5 with views := s5.views.filter (fun w => w.id != s0.nextView) }, .unit)
           | _ => (s0, .keyError)
 
+/-- `(attribute.namespace, attribute.local_name)`: `Attribute.namespace` is computed on access - an attribute object
+    whose stored name has no namespace reports the default namespace in scope, like the iteration over the
+    collection does (so the answer does not depend on when, or how often, the object was created) -/
+def viewName (c : Ctx) (s : State) (vid : Nat) : Option QName :=
+  (getView s vid).map (fun v => reportedName c v.qname)
+
 /-! the mixin methods of `collections.abc.MutableMapping` are compositions of the above -/
 
 /-- `attributes.pop(item)` (no default): `value = self[key]`, `del self[key]`, `return value` -/
